@@ -224,7 +224,9 @@ func c11(r *hx.Run) {
 			fail("deactivate-parse-back", fmt.Sprintf("deactivate does not parse back (err=%v)", err))
 		}
 		// ---- effect
-		mk := func(id string, typ operation.Type, req []byte) *fx.PoolOp { return &fx.PoolOp{ID: id, Type: typ, Req: req} }
+		mk := func(id string, typ operation.Type, req []byte) *fx.PoolOp {
+			return &fx.PoolOp{ID: id, Type: typ, Req: req}
+		}
 		cp := fx.Placed{Op: mk("C", operation.TypeCreate, createReq), Time: T - 1, Num: 0, Published: true}
 		type scenario struct {
 			name   string
